@@ -596,7 +596,9 @@ def check_ctx_group(g, res):
             iso[j["co"]] = ids
             sign = -1 if g["desc"] else 1
             want = {"upper-first": 1, "lower-first": -1}.get(j["co"])
-            if want:
+            # only with an explicit lang: without one the collator is the process default, which in a
+            # C/POSIX environment (ICU en_US_POSIX) orders ASCII by code point at the primary level
+            if want and g["lang"]:
                 for x in range(n):
                     for y in range(x + 1, n):
                         a, b = words[ids[x]], words[ids[y]]          # a is processed before b
@@ -608,7 +610,7 @@ def check_ctx_group(g, res):
             fails.append("%s: processed as %s but the same key alone on a fresh transformer gives %s (keys %s)" % (
                 what, ids, iso[j["co"]], " ".join(words)))
     # case-order only decides between strings that are equal ignoring case
-    if len(iso) == 3:
+    if len(iso) == 3 and g["lang"]:
         def rel(ids):
             pos = {i: k for k, i in enumerate(ids)}
             return {(a, b): pos[a] < pos[b] for a in range(n) for b in range(a + 1, n) if words[a].lower() != words[b].lower()}
